@@ -2,9 +2,13 @@
 
 Implementation: DFA.successors / successor / predecessors / predecessor (explicit stack machine).
 Model: Model/Succ.v (specification model: filter over the dictionary-order enumeration), proved in
-Props/P_C14.v; additionally Model/SuccMachine.v (mirror of the stack machine, repaired row 8) is run on
-every case and must agree with both the implementation and the specification model.  Observables compared exactly: the whole generated word list, the single-step
-result, the exception kind."""
+Props/P_C14.v; additionally Model/SuccMachine.v (mirror of the stack machine after the repairs b46f35e, e6d88f7,
+366d64a, d88b819) is run on every case and must agree with both the implementation and the specification model.
+Observables compared exactly: the whole generated word list, the single-step result, the exception kind.
+
+Symbols on the wire: every character in play (the alphabet AND the characters of start strings outside it) is
+numbered by its rank under the ordering (`order` string covering all of them, or code points), so the alphabet
+is in general a non-contiguous set of codes and `<` on codes is the ordering for foreign characters too."""
 from __future__ import annotations
 
 import itertools
@@ -13,10 +17,14 @@ import enc
 import gen
 from props.common import drain, load_def, mk_dfa, outcome
 
-RULE = ("random valid DFAs (1-6 states, 1-3 symbols, partial/complete, 7 state-name pools) plus built acyclic DFAs "
-        "(finite languages; optionally completed with a trap, optionally with an unproductive cycle) and empty languages; "
-        "per DFA one symbol order key (None / reversed / a permutation), starts None, '', accepted words, rejected words, "
-        "words falling off a partial DFA, words longer than max_length; both strictness values; windows (min,max) in "
+RULE = ("random valid DFAs (1-6 states, 1-3 symbols incl. alphabets with gaps such as 'ac', 'bdf'; partial/complete, 7 "
+        "state-name pools) plus built acyclic DFAs "
+        "(finite languages; optionally completed with a trap, optionally with an unproductive cycle), empty languages and "
+        "DFAs over the EMPTY alphabet (initial state final or not; every start/strict/window/direction combination); "
+        "per DFA one symbol order key (None / reversed / a permutation, defined on the alphabet and on 2-4 characters "
+        "outside it whose ranks interleave with the alphabet's), starts None, '', accepted words, rejected words, "
+        "words falling off a partial DFA, words longer than max_length, words with characters outside the alphabet "
+        "(below / between / above the alphabet's in the ordering); both strictness values; windows (min,max) in "
         "{(0,None),(0,4),(1,3),(2,2),(3,None)} (max_length always given when the language is infinite); forward and "
         "reverse direction. One case = one (DFA, key, start, strict, window, direction) call: the full word list of the "
         "generator and the single-step result are compared exactly with the proved model. distinct = distinct canonical "
@@ -28,9 +36,46 @@ MAX_REPORT = 3
 NAME = {"succ": "successor", "pred": "predecessor"}
 
 
+ALPHABETS14 = gen.ALPHABETS + ["ac", "bd", "ace", "bdf", "b", "m", "13"]
+FOREIGN_POOL = "#0`abcdefg~"
+
+
 def key_of(order):
-    """order = the alphabet as a string in ascending key order, or None for the default (code point) order."""
+    """order = ALL characters in play (alphabet and foreign characters of start strings) as a string in ascending
+    key order, or None for the default (code point) order."""
     return None if order is None else order.index
+
+
+class RankMap:
+    """Wire numbering for C14: every character in play gets its rank under the ordering; .syms is the alphabet in
+    ascending order (a possibly non-contiguous set of codes), .all the whole universe."""
+
+    def __init__(self, input_symbols, extra="", key=None):
+        uni = set(input_symbols) | set(extra)
+        self.all = sorted(uni, key=key) if key else sorted(uni)
+        self.idx = {c: i for i, c in enumerate(self.all)}
+        self.syms = [c for c in self.all if c in input_symbols]
+
+    def __call__(self, c):
+        return self.idx[c]
+
+    def word(self, s):
+        return [self.idx[c] for c in s]
+
+    def unword(self, w):
+        return "".join(self.all[i] for i in w)
+
+
+def pick_foreign(rng, sigma):
+    """2-4 characters outside the alphabet, preferring ones that fall between / around the alphabet's."""
+    cand = [c for c in FOREIGN_POOL if c not in sigma]
+    rng.shuffle(cand)
+    return "".join(sorted(cand[:rng.randint(2, 4)]))
+
+
+def below_alphabet(sy, s):
+    """a character of the start string ranks below every alphabet symbol (the shape repaired by 366d64a)"""
+    return bool(sy.syms) and s is not None and any(sy(c) < sy(sy.syms[0]) for c in s)
 
 
 def acyclic_def(rng, sigma, nmax=6):
@@ -105,9 +150,9 @@ def lang_upto(d, alphabet, maxlen):
     return out
 
 
-def oracle(d, order_syms, start, strict, lo, hi, reverse, finite):
+def oracle(d, sy, start, strict, lo, hi, reverse, finite):
     """Brute-force expected list (search aid / confirmation only, not a proof)."""
-    rank = {c: i for i, c in enumerate(order_syms)}
+    rank, order_syms = sy.idx, sy.syms
     kf = lambda w: [rank[c] for c in w]  # noqa: E731  (list comparison = dictionary order, prefix smaller)
     if reverse and not finite:
         return ("err", enc.INFINITE)
@@ -128,6 +173,8 @@ def classify_start(d, s, hi):
         return "start_None"
     if s == "":
         return "start_empty"
+    if any(c not in d.input_symbols for c in s):
+        return "start_has_foreign_symbol"
     if hi is not None and len(s) > hi:
         return "start_longer_than_max"
     q = walk(d, s)
@@ -136,9 +183,19 @@ def classify_start(d, s, hi):
     return "start_accepted" if q in d.final_states else "start_rejected"
 
 
-def pick_starts(rng, d, sigma, finite):
+def pick_starts(rng, d, sigma, finite, foreign=""):
     acc = lang_upto(d, sigma, 5)
     starts = [None, ""]
+    if foreign:
+        # characters outside the alphabet: alone, inside / at the end of an accepted word, in a random word
+        starts.append(rng.choice(foreign))
+        base = rng.choice(acc) if acc else gen.rand_word(rng, sigma, 3)
+        i = rng.randint(0, len(base))
+        starts.append(base[:i] + rng.choice(foreign) + base[i:])
+        starts.append(base + rng.choice(foreign))
+        starts.append("".join(rng.choice(sigma + foreign) for _ in range(rng.randint(1, 4))))
+        if sigma:
+            starts.append(rng.choice(sigma) + rng.choice(foreign) + rng.choice(foreign))
     if acc:
         starts.append(rng.choice(acc))
         starts.append(max(acc, key=len))
@@ -178,10 +235,10 @@ def model_view(ans, sy):
 
 
 def check_dfa(ctx, ddef, order, queries, tag):
-    """queries: list of (start, strict, lo, hi, reverse)."""
+    """queries: list of (start, strict, lo, hi, reverse).  order covers every character of the queries' start strings."""
     d = mk_dfa(ddef)
     key = key_of(order)
-    sy = enc.SymMap(d.input_symbols, key=key)
+    sy = RankMap(d.input_symbols, "".join(q[0] or "" for q in queries) + (order or ""), key=key)
     td = enc.enc_dfa(d, None, sy)
     finite = d.isfinite()
     reqs = []
@@ -198,6 +255,12 @@ def check_dfa(ctx, ddef, order, queries, tag):
         direction = "pred" if reverse else "succ"
         ctx.tally(direction)
         ctx.tally(classify_start(d, start, hi))
+        if start and d.input_symbols and any(c not in d.input_symbols for c in start):
+            fr = [c for c in start if c not in d.input_symbols]
+            ctx.tally("foreign_below_alphabet" if any(sy(c) < sy(sy.syms[0]) for c in fr) else
+                      "foreign_above_alphabet" if all(sy(c) > sy(sy.syms[-1]) for c in fr) else "foreign_between")
+        if not d.input_symbols:
+            ctx.tally("empty_alphabet")
         ctx.tally("strict" if strict else "nonstrict")
         ctx.tally(f"window_{lo}_{hi}")
         ctx.tally("lang_finite" if finite else "lang_infinite")
@@ -226,7 +289,7 @@ def check_dfa(ctx, ddef, order, queries, tag):
             ctx.tally("disagreements_total")
             if ctx.tally_get("disagreements_total") > MAX_REPORT:
                 continue
-            exp = oracle(d, sy.syms, start, strict, lo, hi, reverse, finite)
+            exp = oracle(d, sy, start, strict, lo, hi, reverse, finite)
             exp1 = exp if exp[0] == "err" else ("ok", exp[1][0] if exp[1] else None)
             confirmed = got_l[:2] != exp[:2] or got_1[:2] != exp1[:2]
             ctx.violation(
@@ -242,8 +305,8 @@ def check_dfa(ctx, ddef, order, queries, tag):
                 confirmed=confirmed)
 
 
-def make_queries(rng, d, sigma, finite, dense):
-    starts = pick_starts(rng, d, sigma, finite)
+def make_queries(rng, d, sigma, finite, dense, foreign=""):
+    starts = pick_starts(rng, d, sigma, finite, foreign)
     windows = WINDOWS_FINITE if finite else WINDOWS_INFINITE
     qs = []
     for s in starts:
@@ -265,6 +328,7 @@ def make_queries(rng, d, sigma, finite, dense):
 
 
 def pick_order(rng, sigma):
+    """sigma: all characters in play (alphabet + foreign)"""
     r = rng.random()
     srt = "".join(sorted(sigma))
     if r < 0.3 or len(srt) == 1 and r < 0.6:
@@ -277,17 +341,41 @@ def pick_order(rng, sigma):
 
 
 def known_findings(ctx):
-    """Open findings (DESIGN section 8 row 9): their reproducers are run here; generators avoid the shapes."""
+    """Regressions of the fixed findings (DESIGN section 8 row 9: e6d88f7, d88b819, and the follow-up 366d64a)."""
     from automata.fa.dfa import DFA
     d = DFA(states={0}, input_symbols={"a"}, transitions={0: {"a": 0}}, initial_state=0, final_states={0})
-    got = outcome(lambda: d.successor("b"))
-    # every word over {a} precedes "b" whatever rank the foreign symbol gets after 'a'; the call should not crash
-    handle(ctx, "successor_start_has_foreign_symbol", got[:2] == ("err", enc.KEYERR),
-           got[0] == "ok", f"DFA over {{'a'}} accepting a*: successor('b') -> {got}")
+    # every word over {a} precedes "b": no successor; all of them (up to max_length) are predecessors
+    got = [outcome(lambda: d.successor("b")), outcome(lambda: list(d.successors("b", max_length=2))),
+           outcome(lambda: list(d.successors("ab", max_length=2))),
+           outcome(lambda: list(DFA(states={0, 1}, input_symbols={"a"}, transitions={0: {"a": 1}, 1: {}}, initial_state=0,
+                                    final_states={0, 1}, allow_partial=True).predecessors("b")))]
+    want = [("ok", None), ("ok", []), ("ok", []), ("ok", ["a", ""])]
+    handle(ctx, "successor_start_has_foreign_symbol", any(g[:2] == ("err", enc.KEYERR) for g in got),
+           [g[:2] for g in got] == want,
+           f"DFA over {{'a'}} accepting a*: successor('b'), successors('b'|'ab', max_length=2), predecessors('b') of "
+           f"{{'', 'a'}} -> {got}, expected {want}")
     d0 = DFA(states={0}, input_symbols=set(), transitions={0: {}}, initial_state=0, final_states={0})
-    got = outcome(lambda: list(d0.successors(None)))
-    handle(ctx, "successor_empty_alphabet", got[:2] == ("err", enc.INDEXERR), got[:2] == ("ok", [""]),
-           f"DFA over the empty alphabet accepting only '': list(successors(None)) -> {got}, expected ['']")
+    d1 = DFA(states={0}, input_symbols=set(), transitions={0: {}}, initial_state=0, final_states=set())
+    got = [outcome(lambda: list(d0.successors(None))), outcome(lambda: list(d0.successors(""))),
+           outcome(lambda: list(d0.successors("", strict=False))), outcome(lambda: list(d0.predecessors("x"))),
+           outcome(lambda: list(d0.successors("x", strict=False))), outcome(lambda: list(d0.successors(None, min_length=1))),
+           outcome(lambda: list(d1.successors(None))), outcome(lambda: d0.predecessor("", strict=False))]
+    want = [("ok", [""]), ("ok", []), ("ok", [""]), ("ok", [""]), ("ok", []), ("ok", []), ("ok", []), ("ok", "")]
+    handle(ctx, "successor_empty_alphabet", any(g[:2] == ("err", enc.INDEXERR) for g in got),
+           [g[:2] for g in got] == want,
+           f"DFAs over the empty alphabet (language {{''}} / empty): successors(None|''|'' non-strict), predecessors('x'), "
+           f"successors('x' non-strict), successors(None, min_length=1), successors(None) of the empty language, "
+           f"predecessor('' non-strict) -> {got}, expected {want}")
+    # 366d64a: a character of the start string below the whole alphabet made the forward traversal generate a proper
+    # prefix of the start string again (next_symbol returns first_symbol after the pop)
+    db = DFA(states={0}, input_symbols={"b"}, transitions={0: {"b": 0}}, initial_state=0, final_states={0})
+    got = [outcome(lambda: list(db.successors("a", max_length=0))), outcome(lambda: db.successor("a")),
+           outcome(lambda: list(db.successors("ba", max_length=1)))]
+    want = [("ok", []), ("ok", "b"), ("ok", [])]
+    bad = [("ok", [""]), ("ok", ""), ("ok", ["b"])]
+    handle(ctx, "successor_foreign_symbol_below_alphabet", [g[:2] for g in got] == bad, [g[:2] for g in got] == want,
+           f"DFA over {{'b'}} accepting b*: successors('a', max_length=0), successor('a'), successors('ba', max_length=1) "
+           f"-> {got}, expected {want}")
 
 
 def handle(ctx, fid, still_fails, passes, text):
@@ -303,12 +391,34 @@ def handle(ctx, fid, still_fails, passes, text):
         ctx.violation(f"{fid}: {text}", {"kind": "known", "id": fid})
 
 
+def empty_alphabet(ctx):
+    """DFAs over the empty alphabet (guard d88b819): initial state final or not, a second unreachable state, every
+    start / strict / window / direction combination; start strings necessarily consist of foreign characters."""
+    rng = ctx.rng
+    for finals, states in (({0}, {0}), (set(), {0}), ({0, 1}, {0, 1}), ({1}, {0, 1})):
+        ddef = dict(states=set(states), input_symbols=set(), transitions={q: {} for q in states}, initial_state=0,
+                    final_states=set(finals), allow_partial=rng.random() < 0.5)
+        qs = [(s, st, lo, hi, rv) for s in (None, "", "a", "ba#") for st in (True, False)
+              for (lo, hi) in ((0, None), (0, 0), (0, 4), (1, 3), (1, None), (2, 2)) for rv in (False, True)]
+        for order in (None, "b#a"):
+            ctx.tally("dfa_empty_alphabet")
+            check_dfa(ctx, ddef, order, qs, "empty_alphabet")
+
+
 def run(ctx):
     ctx.rule = RULE
     if not hasattr(ctx, "tally_get"):
         ctx.tally_get = lambda k: ctx.dist.get(k, 0)
     rng = ctx.rng
     known_findings(ctx)
+    empty_alphabet(ctx)
+    # start strings with characters between / above the alphabet's, fixed shapes (alphabet 'ac')
+    gap = dict(states={0, 1, 2}, input_symbols={"a", "c"}, transitions={0: {"a": 1, "c": 2}, 1: {"c": 2, "a": 1}, 2: {}},
+               initial_state=0, final_states={0, 1, 2}, allow_partial=True)
+    for order in (None, "c#ba", "ab#c"):
+        qs = [(s, st, lo, hi, rv) for s in ("ab", "b", "cb#", "a#", "#", "abc", "acb", "ca#a") for st in (True, False)
+              for (lo, hi) in ((0, 3), (1, 2)) for rv in (False, True)]
+        check_dfa(ctx, gap, order, qs, "gap")
     # the minimal reproducer of DESIGN section 8 row 8 always runs first
     row8 = dict(states={0, 1}, input_symbols={"a"}, transitions={0: {"a": 1}, 1: {}}, initial_state=0,
                 final_states={0, 1}, allow_partial=True)
@@ -317,7 +427,8 @@ def run(ctx):
                       final_states={0}, allow_partial=False)
     check_dfa(ctx, only_empty, None, [("a", True, 0, None, True), ("a", True, 0, None, False)], "row8")
     for i in range(ctx.n(260, 5000)):
-        sigma = gen.rand_alphabet(rng)
+        sigma = rng.choice([a for a in ALPHABETS14 if len(a) == rng.randint(1, 3)] or ["ab"])
+        foreign = pick_foreign(rng, sigma) if rng.random() < 0.6 else ""
         r = rng.random()
         big = ctx.tier == "thorough" and rng.random() < 0.2
         if r < 0.45:
@@ -332,9 +443,9 @@ def run(ctx):
         ctx.tally("dfa_partial" if ddef["allow_partial"] else "dfa_complete")
         if d.isempty():
             ctx.tally("dfa_empty_language")
-        order = pick_order(rng, sigma)
-        ctx.tally("key_none" if order is None else "key_reversed" if order == "".join(sorted(sigma))[::-1] else "key_permutation")
-        check_dfa(ctx, ddef, order, make_queries(rng, d, sorted(sigma), finite, dense=False), tag)
+        order = pick_order(rng, sigma + foreign)
+        ctx.tally("key_none" if order is None else "key_reversed" if order == "".join(sorted(sigma + foreign))[::-1] else "key_permutation")
+        check_dfa(ctx, ddef, order, make_queries(rng, d, "".join(sorted(sigma)), finite, dense=False, foreign=foreign), tag)
     if ctx.tier == "thorough":
         exhaustive(ctx)
 
@@ -375,8 +486,8 @@ def replay(ctx, case):
         q = (case["start"], case["strict"], case["min_length"], case["max_length"], case["reverse"])
         d = mk_dfa(ddef)
         print("implementation:", impl_call(d, q[4], q[0], q[1], key_of(case["order"]), q[2], q[3]))
-        sy = enc.SymMap(d.input_symbols, key=key_of(case["order"]))
-        print("brute force   :", oracle(d, sy.syms, q[0], q[1], q[2], q[3], q[4], d.isfinite()))
+        sy = RankMap(d.input_symbols, (q[0] or "") + (case["order"] or ""), key=key_of(case["order"]))
+        print("brute force   :", oracle(d, sy, q[0], q[1], q[2], q[3], q[4], d.isfinite()))
         check_dfa(ctx, ddef, case["order"], [q], "replay")
         print("model         :", "see violation text above" if ctx.violations else "agrees with the implementation")
     else:
